@@ -11,7 +11,8 @@ import (
 	"golang.org/x/tools/go/ssa"
 )
 
-const maxInlineDepth = 4
+const maxInlineDepth = 3
+const maxInlineBlocks = 24
 
 func (a *Act) call(st *State, c *ssa.CallCommon, site ssa.Instruction, pos token.Pos) []Term {
 	tr := a.tr
@@ -86,7 +87,12 @@ func (a *Act) callFunc(st *State, callee *ssa.Function, closure *Closure, args [
 	}
 	// 3. inline module functions
 	if callee.Pkg != nil && strings.HasPrefix(callee.Pkg.Pkg.Path(), modulePath) || (callee.Pkg == nil && callee.Parent() != nil) || isInstantiation(callee) {
-		if len(callee.Blocks) > 0 && a.depth < maxInlineDepth && !a.onStack(callee) {
+		forced := closure != nil
+		if fc := tr.eng.contracts.forFunc(callee); fc != nil && fc.inline {
+			forced = true
+		}
+		if len(callee.Blocks) > 0 && !a.onStack(callee) && (forced || (a.depth < maxInlineDepth && len(callee.Blocks) <= 3) || (a.depth < maxInlineDepth && len(callee.Blocks) <= maxInlineBlocks && tr.inlineBudget >= len(callee.Blocks))) {
+			tr.inlineBudget -= len(callee.Blocks)
 			return a.inline(st, callee, closure, args, pos)
 		}
 		tr.havocked[name] = true
@@ -128,6 +134,7 @@ func (a *Act) inline(st *State, callee *ssa.Function, closure *Closure, args []T
 	st.reach = out.reach
 	st.heap = out.heap
 	st.alloc = out.alloc
+	st.owned = out.owned
 	for d, v := range out.defers {
 		st.defers[d] = v
 	}
@@ -155,7 +162,7 @@ func (a *Act) havocCall(st *State, sig *types.Signature, args []Term, module boo
 			if c.value {
 				st.heap[cn] = tr.heapFrame(prev, func(key []Term) Term { return app("<=", key[0], now) }, "call_"+cn)
 			} else {
-				st.heap[cn] = tr.newHeapBase(c, "call_"+cn)
+				tr.havocCells(st, c, "call")
 			}
 		}
 		na := tr.freshConst("alloc_call", "Int")
@@ -421,7 +428,7 @@ func (a *Act) runDefers(st *State, b *ssa.BasicBlock) {
 		delete(skip.defers, d)
 		run.defers = skip.defers
 		m := tr.mergeStates([]*State{run, skip})
-		st.reach, st.heap, st.alloc, st.defers = m.reach, m.heap, m.alloc, m.defers
+		st.reach, st.heap, st.alloc, st.defers, st.owned = m.reach, m.heap, m.alloc, m.defers, m.owned
 	}
 }
 
